@@ -128,7 +128,7 @@ Proof. exact crun_one_commit. Qed.
 Print Assumptions C07_one_commit.
 
 Definition c07_first : cev := EKeepalive 100 false false.
-Definition c07_it (e : cev) : citer := mkIter false [] false e [] false [].
+Definition c07_it (e : cev) : citer := mkIter false [] false e [] false [] false.
 
 (* regression of finding F3: BEGIN, change, COMMIT, ErrorResponse is inside the domain and now
    forwards ONE COMMIT for the key (before the repair recovery emitted a second one) *)
@@ -197,14 +197,19 @@ Print Assumptions C07_restart_after_drop.
    the observations of the ticks served while the output channel is full ([blocked_obs]: per
    tick a non-fresh connection request and a status update; [] when [i_blocked it = []], which
    gives back the former statement literally), and if one of those ticks finds the progress
-   channel closed ([blocked_closed]) the stamped BEGIN is not forwarded: Close, Stop instead. *)
+   channel closed ([blocked_closed]) the stamped BEGIN is not forwarded: Close, Stop instead.
+   STATEMENT CHANGE (silent connection death, [i_dies it]): the first of those connection requests
+   is a fresh one iff the connection died at this message boundary (blocked_obs ... (negb (i_dies
+   it)) ...), and afterwards the manager holds a connection iff it did not die or a tick
+   reconnected ([blocked_conn]); with [i_dies it = false] the statement is as before. *)
 Theorem C07_begin_accepted : forall s it s' o w t,
   stopped s = false -> i_pclosed it = false ->
   saw_commit s = true \/ first_iter s = true ->
   i_ev it = EXLog w (XBegin t) -> cstep s it = (s', o) ->
-  o = head_out s it ++ blocked_obs (highest s) true (hp_val s (i_prog it)) (i_blocked it) ++
+  o = head_out s it ++ blocked_obs (highest s) (negb (i_dies it)) (hp_val s (i_prog it)) (i_blocked it) ++
       (if blocked_closed (i_blocked it) then [CClose; CStop] else [COut "BEGIN" t (key_of t (begins s)) w]) /\
-  conn_open s' = negb (blocked_closed (i_blocked it)) /\
+  conn_open s' = (if blocked_closed (i_blocked it) then false
+                  else blocked_conn (negb (i_dies it)) (i_blocked it)) /\
   highest s' = highest s /\ first_iter s' = false /\ saw_commit s' = false /\
   stopped s' = blocked_closed (i_blocked it) /\
   ctxn s' = t /\ ckey s' = key_of t (begins s).
@@ -269,7 +274,7 @@ Proof. vm_compute. split; reflexivity. Qed.
    the updates. *)
 Example C07_blocked_closed_not_forwarded :
   let s := fst (crun c07_first []) in
-  let it := mkIter false [] false (EXLog 200 (XBegin "7")) [] false [([150], false); ([], true)]%N in
+  let it := mkIter false [] false (EXLog 200 (XBegin "7")) [] false [([150], false); ([], true)]%N false in
   write_fails s it = true /\ couts (snd (cstep s it)) = [] /\
   ev_couts (head_state s it) (i_ev it) = [COut "BEGIN" "7" "7-0" 200] /\
   stopped (fst (cstep s it)) = true /\ ckey (fst (cstep s it)) = "7-0"%string.
@@ -277,9 +282,28 @@ Proof. vm_compute. repeat split. Qed.
 
 Example C07_blocked_begin_forwarded_after_updates :
   let s := fst (crun c07_first []) in
-  let it := mkIter false [] false (EXLog 200 (XBegin "7")) [] false [([150], false); ([], false)]%N in
+  let it := mkIter false [] false (EXLog 200 (XBegin "7")) [] false [([150], false); ([], false)]%N false in
   write_fails s it = false /\
   snd (cstep s it) = [CGetStart 0 false; CRecv; CGetStart 0 false; CSend 150; CGetStart 0 false; CSend 150;
                       COut "BEGIN" "7" "7-0" 200] /\
   stopped (fst (cstep s it)) = false.
+Proof. vm_compute. repeat split. Qed.
+
+(* disconnects at every message boundary: the connection dies right after the change of
+   transaction 7 was delivered; the change is forwarded with 7's stamp, the next loop head
+   reconnects (START_REPLICATION at 0: no COMMIT received yet), PostgreSQL re-sends from BEGIN 7,
+   which arrives without a preceding COMMIT: dropped, reconnect, and the redelivery gets a NEW key *)
+Example C07_silent_death_at_message_boundary :
+  let its := [ c07_it (EXLog 200 (XBegin "7"));
+               mkIter false [] false (EXLog 300 (XChange "INSERT")) [] false [] true;
+               c07_it (EXLog 200 (XBegin "7")); c07_it (EXLog 200 (XBegin "7"));
+               c07_it (EXLog 300 (XChange "INSERT")); c07_it (EXLog 500 (XCommit "7")) ] in
+  script_ok its = true /\ commits_ok true (map i_ev its) = true /\
+  snd (crun c07_first its) =
+    [CGetStart 0 true; CRecv; CGetStart 0 false; CRecv; COut "BEGIN" "7" "7-0" 200;
+     CGetStart 0 false; CRecv; COut "INSERT" "7" "7-0" 300;
+     CGetStart 0 true; CRecv; CClose;
+     CGetStart 0 true; CRecv; COut "BEGIN" "7" "7-2" 200;
+     CGetStart 0 false; CRecv; COut "INSERT" "7" "7-2" 300;
+     CGetStart 0 false; CRecv; COut "COMMIT" "7" "7-2" 500].
 Proof. vm_compute. repeat split. Qed.
